@@ -109,6 +109,7 @@ type Worker struct {
 	extCache map[*ssa.Function]extFn
 	fnInfo   map[*ssa.Function]*fnInfo
 	modelHits int
+	accesses  map[string]*accessRec
 	harness  *ssa.Function
 }
 
@@ -131,7 +132,7 @@ func (w *Worker) runPath(it workItem) (res *PathResult) {
 	in := &Interp{w: w, prog: w.prog, ts: w.ts,
 		globals: map[*ssa.Global]*value{}, initing: map[*ssa.Package]bool{},
 		dv: dv, model: it.model.forWorker(), known: map[*Term]bool{}, inputCount: map[string]int{},
-		locks: map[*value]*lockState{}, wg: map[*value]int{}, objIDs: map[*value]int{},
+		locks: map[*value]*lockState{}, wg: map[*value]int{}, locs: map[*value]*locInfo{}, objIDs: map[*value]int{},
 		concreteIn: w.cfg.Concrete,
 		res:        &PathResult{Asserts: map[string]*assertStat{}, Reach: map[string]int{}},
 	}
@@ -199,6 +200,8 @@ type RunResult struct {
 	Functions  map[string]int
 	Stopped    string
 	SolverErrs []string
+	Accesses   []*accessRec
+	Races      []*raceRec
 }
 
 func Explore(prog *ssa.Program, harness *ssa.Function, cfg *Config, redirect map[string]*ssa.Function, kfOpen map[string]bool, initPkgs map[string]bool) *RunResult {
@@ -221,7 +224,7 @@ func Explore(prog *ssa.Program, harness *ssa.Function, cfg *Config, redirect map
 		}
 		w := &Worker{id: i, cfg: cfg, ex: ex, prog: prog, ts: ts, solver: s,
 			stubsHit: map[string]int{}, fnsHit: map[*ssa.Function]int{}, redirect: redirect,
-			kfOpen: kfOpen, initPkgs: initPkgs, extCache: map[*ssa.Function]extFn{}, fnInfo: map[*ssa.Function]*fnInfo{}, harness: harness}
+			kfOpen: kfOpen, initPkgs: initPkgs, accesses: map[string]*accessRec{}, extCache: map[*ssa.Function]extFn{}, fnInfo: map[*ssa.Function]*fnInfo{}, harness: harness}
 		workers[i] = w
 		wg.Add(1)
 		go func() {
@@ -287,9 +290,81 @@ func Explore(prog *ssa.Program, harness *ssa.Function, cfg *Config, redirect map
 		}
 		w.solver.Close()
 	}
+	accs := map[string]*accessRec{}
+	for _, w := range workers {
+		for k, a := range w.accesses {
+			accs[k] = a
+		}
+	}
+	for _, k := range sortedKeys(accs) {
+		rr.Accesses = append(rr.Accesses, accs[k])
+	}
+	rr.Races = eraser(rr.Accesses)
 	sort.Slice(rr.Cex, func(i, j int) bool { return rr.Cex[i].Label < rr.Cex[j].Label })
 	rr.WallS = time.Since(t0).Seconds()
 	return rr
 }
 
 var _ = types.Typ
+
+type raceRec struct {
+	Loc  string
+	A, B *accessRec
+}
+
+func roleGroup(r string) string {
+	if i := strings.Index(r, ":"); i >= 0 {
+		return r[:i]
+	}
+	return r
+}
+
+func lockModes(s string) map[string]string {
+	m := map[string]string{}
+	if s == "" {
+		return m
+	}
+	for _, x := range strings.Split(s, ",") {
+		i := strings.LastIndex(x, ":")
+		m[x[:i]] = x[i+1:]
+	}
+	return m
+}
+
+// eraser: two accesses of different role groups to the same location, at least one a
+// write, must hold a common lock, at least one of them in write mode.
+func eraser(accs []*accessRec) []*raceRec {
+	byLoc := map[string][]*accessRec{}
+	for _, a := range accs {
+		byLoc[a.Loc] = append(byLoc[a.Loc], a)
+	}
+	var out []*raceRec
+	seen := map[string]bool{}
+	for _, loc := range sortedKeys(byLoc) {
+		as := byLoc[loc]
+		for i, x := range as {
+			for _, y := range as[i+1:] {
+				if roleGroup(x.Role) == roleGroup(y.Role) || !(x.Write || y.Write) {
+					continue
+				}
+				lx, ly := lockModes(x.Locks), lockModes(y.Locks)
+				ok := false
+				for l, mx := range lx {
+					if my, has := ly[l]; has && (mx == "W" || my == "W") {
+						ok = true
+					}
+				}
+				if ok {
+					continue
+				}
+				key := loc + "|" + x.Where + "|" + y.Where
+				if seen[key] {
+					continue
+				}
+				seen[key] = true
+				out = append(out, &raceRec{Loc: loc, A: x, B: y})
+			}
+		}
+	}
+	return out
+}
